@@ -98,6 +98,55 @@ SPEC_FOUR = FUZZER + PARTY.format(name="Extern") + r'''
 '''
 
 
+# a remote message with a COMPUTED repetition count, echoed by the fuzzer's next message
+SPEC_FIVE = FUZZER + PARTY.format(name="Extern") + r'''
+<start> ::= <Fuzzer:Extern:req> <Extern:Fuzzer:resp> <Fuzzer:Extern:ack>
+<req> ::= "GET\n"
+<resp> ::= <m> ":" <y>{int(<m>)} "\n"
+<m> ::= "1" | "2" | "3"
+<y> ::= "a" | "b"
+<ack> ::= "ACK " <k> "\n"
+<k> ::= "1" | "2" | "3"
+where int(<ack>.<k>) == int(<resp>.<m>)
+'''
+
+
+def prefix_ok_five(msgs):
+    want = [("Fuzzer", "Extern", r"GET\n"), ("Extern", "Fuzzer", r"([123]):([ab]*)\n"), ("Fuzzer", "Extern", r"ACK ([123])\n")]
+    if len(msgs) > 3:
+        return False, False, "more than three messages"
+    m_val = None
+    for i, (s, r, t) in enumerate(msgs):
+        ws, wr, rx = want[i]
+        if (s, r) != (ws, wr):
+            return False, False, f"message #{i + 1} {t!r} is attributed to {s}->{r}, the spec says {ws}->{wr}"
+        mm = re.fullmatch(rx, t)
+        if not mm:
+            return False, False, f"message #{i + 1} {t!r} does not have the form of its type"
+        if i == 1:
+            m_val = int(mm.group(1))
+            if len(mm.group(2)) != m_val:
+                return False, False, f"recorded remote message {t!r} announces {m_val} items and carries {len(mm.group(2))}"
+        if i == 2 and int(mm.group(1)) != m_val:
+            return False, False, f"sent message {t!r} violates int(<k>) == int(<m>) (m = {m_val})"
+    return True, len(msgs) == 3, ""
+
+
+def cases_five(tier, rnd):
+    def mk(text, cuts=None):
+        def reply(message, recipient):
+            if not message.startswith("GET"):
+                return []
+            return [("Extern", p) for p in (cuts(text) if cuts else [text])]
+        return reply
+    out = []
+    for text in ("1:a\n", "2:ab\n", "3:bab\n"):
+        out.append((f"valid_{text[0]}_whole", True, mk(text)))
+        out.append((f"valid_{text[0]}_chars", True, mk(text, lambda t: list(t))))
+    out += [("too_few_items", False, mk("2:a\n")), ("too_many_items", False, mk("1:ab\n", lambda t: list(t))), ("count_out_of_range", False, mk("4:abab\n"))]
+    return out
+
+
 def prefix_ok_three(msgs):
     if len(msgs) > 2:
         return False, False, "more than two messages"
@@ -358,7 +407,8 @@ sys.exit(c20.replay({spec_name!r}, {label!r}, {seed!r}, {tier!r}))
 
 
 FAMILY = {"request_reply_ack": (SPEC_ONE, prefix_ok_one, cases_one), "two_remote_parties": (SPEC_TWO, prefix_ok_two, cases_two),
-          "same_type_to_several_parties": (SPEC_THREE, prefix_ok_three, cases_three), "pipelined_remote_messages": (SPEC_FOUR, prefix_ok_four, cases_four)}
+          "same_type_to_several_parties": (SPEC_THREE, prefix_ok_three, cases_three), "pipelined_remote_messages": (SPEC_FOUR, prefix_ok_four, cases_four),
+          "counted_remote_message": (SPEC_FIVE, prefix_ok_five, cases_five)}
 
 
 def run(tier="quick", seed=0, pid="C20", only=None):
@@ -400,14 +450,14 @@ def run(tier="quick", seed=0, pid="C20", only=None):
         os.chdir(cwd)
     return {
         "evaluations": evaluations, "distinct_nontrivial": len(distinct),
-        "rule": ("scripted protocol runs (Fandango.fuzz(mode=IO)) of 4 specs (request/reply/ack with constraints across messages; two remote "
+        "rule": ("scripted protocol runs (Fandango.fuzz(mode=IO)) of 5 specs (a remote message with a computed repetition count; request/reply/ack with constraints across messages; two remote "
                  "parties whose fragments arrive interleaved; one message type addressed to different parties in different alternatives; "
                  "two consecutive remote messages of which the first is open-ended, delivered in one burst) x peer behaviours (valid, other valid alternative, wrong type, constraint "
                  "violating, garbage after a valid message, truncated [thorough]) x fragmentations (whole, character by character, "
                  "compositions) / interleavings (A then B, B then A, alternating, seeded random); judged: recorded interaction is a "
                  "prefix of the protocol with correct attribution, sends == recorded fuzzer messages, recorded remote data == delivered "
                  "data, valid peer => complete run, bad remote message never recorded; distinct = (spec, behaviour, first sent message)"),
-        "bound": "4 specs, 2 (5) runs per case, single-threaded in-process parties; sockets, threads and timing are outside", "samples": samples,
+        "bound": "5 specs, 2 (5) runs per case, single-threaded in-process parties; sockets, threads and timing are outside", "samples": samples,
         "violations": violations, "runs_over_budget_not_judged": over_budget, "wall_s": round(time.time() - t0, 1),
     }
 
